@@ -445,8 +445,18 @@ func runC06(c *CaseCtx) (res CaseResult) {
 		}
 		meter.reset()
 	}
+	zeroErrs := 0
+	if r.Intn(6) == 0 {
+		// failing bodies return non-nil errors whose dynamic value is a zero
+		// value of a kind that cannot be nil (struct, int, string) or a typed nil pointer
+		zeroErrs = 1 + r.Intn(4)
+		res.obs("cases_with_zero_valued_error_values", 1)
+	}
 	for k := 0; k < reps; k++ {
 		in, err := Instantiate(s, r)
+		if err == nil {
+			in.W.ZeroErrors = zeroErrs
+		}
 		if err != nil {
 			if err == errDupType {
 				res.Skip = "dup-go-type"
